@@ -309,6 +309,11 @@ def gssvx_cases(tier, prec="d", purpose="C05"):
             cs.append(xcase(3, C.band(3, 1, 1), hist=h, trans=21, symcols=-1 if h in (14,) and not cplx else 4, tune="t122", colperm=2))
         if not cplx:
             cs.append(xcase(2, 15, hist=13, umode=2)); cs.append(xcase(3, 511, hist=13, symcols=6, tune="t212"))
+            # fill-changing refactorization: arrow pattern with the tip first, first column symbolic, fill estimate 1 -- the remembered row order can be abandoned for one that
+            # fills the matrix, so the storage adopted from the previous factors has to grow during the SamePattern_SameRowPerm step
+            for n_ in (4, 5):
+                for tn in ("t1nn_f1", "t221_f1"):
+                    for h, tr in ((13, 12), (134, 121)): cs.append(xcase(n_, C.arrow(n_, False), hist=h, trans=tr, symcols=1, tune=tn, nrhs=1))
             for pat in (15, 0b1101, 0b1011, 0b0111): cs.append(xcase(2, pat, hist=13, umode=3)); cs.append(xcase(2, pat, hist=12, umode=3, storage=1))     # u = 0.0: a remembered / diagonal pivot that is exactly zero must be abandoned
             cs.append(xcase(3, C.band(3, 1, 1), hist=13, umode=3, symcols=6, tune="t212")); cs.append(xcase(3, 511, hist=134, trans=121, umode=3, symcols=4, tune="t122"))
             for n_, pat in ((5, C.dense(5, 5)), (6, C.band(6, 2, 2))):
@@ -534,7 +539,7 @@ def check_C19(chk, tier):
     run_phase(chk, "gssv(asan)/d", H + "h_gssv.c", gc, ["C19."], prec="d", budget_s=200 if q else 900, bounds="simple driver lifecycle, NC/NR, singular and successful outcomes", **kw)
     xc = [xcase(2, 15, hist=h, trans=t, storage=st, symcols=sc, tune="t1nn_f1") for h, t, st, sc in ((1, 1, 0, -1), (1, 2, 1, -1), (14, 12, 0, 2), (13, 21, 1, 2), (124, 123, 0, 2), (134, 213, 1, 2))] + \
          [xcase(2, 15, lworkmode=-1, storage=st, equil=e) for st in (0, 1) for e in (0, 1)] + [xcase(3, 511, symcols=0, equil=1, refine=1, cond=1, growth=1, nrhs=1, trans=t, storage=st) for t in (1, 2) for st in (0, 1)] + \
-         [xcase(5, C.dense(5, 5), symcols=16, hist=134, trans=121, tune="t1nn_f1")]
+         [xcase(5, C.dense(5, 5), symcols=16, hist=134, trans=121, tune="t1nn_f1")] + [xcase(n_, C.arrow(n_, False), hist=134, trans=121, symcols=1, tune=tn) for n_ in (4, 5) for tn in ("t1nn_f1", "t221_f1")]
     run_phase(chk, "gssvx(asan)/d", H + "h_gssvx.c", xc, ["C19."], prec="d", budget_s=200 if q else 900, bounds="expert driver histories incl. singular results and size queries", key_extra=lambda c: {"storage": str(c[2]), "trans": str(c[16]), "hist": str(c[15])}, **kw)
     kc = [c for c in kernel_cases("quick", "d") if c[0] in (3, 4)][:40] + [c for c in kernel_cases("quick", "d") if c[0] in (1, 2)][:40]
     run_phase(chk, "kernels(asan)/d", H + "h_kernels.c", kc, ["C19.", "C14.factors"], prec="d", budget_s=150, bounds="kernels on real factor pairs", **kw)
@@ -690,7 +695,7 @@ def check_C16(chk, tier):
             ("hb", 3, 5, 1, "i5x16", "i5x16", "e16x5", 1, 0, (1, 4, 5, 6), (1, 2, 3, 3, 3))]
     HBFLAGS = e1.BASE_FLAGS + ["--max-field-sensitivity-array-size", "128", "--object-bits", "12"]
     for prec in (["d", "z"] if q else list("dszc")):
-        P = "-DPREC_" + prec.upper(); mem = [REPO + "/SRC/%smemory.c" % prec, REPO + "/SRC/memory.c"]
+        P = "-DPREC_" + prec.upper(); mem = [REPO + "/SRC/%smemory.c" % prec, REPO + "/SRC/memory.c"] + ([REPO + "/SRC/%s" % {"z": "dcomplex.c", "c": "scomplex.c"}[prec]] if prec in "zc" else [])
         for ci, (rd, n, nnz, sym, pi, ii, vv, rhs, pat_only, cp, ri) in enumerate(dict.fromkeys(hbc)):
             if prec in "zc" and q and ci % 2: continue
             nm = "c16_%sread%s_n%d_e%d_%s_%s_%s_%s%s%s" % (prec, rd, n, nnz, ("sym%d" % ci) if sym else "gen", pi, ii, vv, "_rhs" if rhs else "", "_pat" if pat_only else "")
@@ -747,6 +752,27 @@ def check_C17(chk, tier):
                 cs.append((n, hex(pat), -1 if (nnzp <= (6 if q else 9)) else 0b101, sing))
         run_phase(chk, "ldperm(job 5)/" + prec, H + "h_ldperm.c", list(dict.fromkeys(cs)), ["C17."], prec=prec, budget_s=220 if q else 1800, validate_samples=0, qtimeout_ms=5000 if q else 60000, path_timeout=60 if q else 600,
                   bounds="all 1x1, 2x2 patterns and (quick: selected; thorough: all) 3x3 patterns, symbolic nonzero magnitudes through the log model")
+    c17_reach(chk, tier)
+
+
+def c17_reach(chk, tier):
+    """tie-heavy reach cases for mc64's heap paths: concrete entries +-2^k (k in -2..2) with exact base-2 logarithms; optionally one symbolic column whose log atoms the
+    solver orders against the integers (exact ties are equality branches)"""
+    q = tier == "quick"; cs = []
+    for n, cnt, den in ((6, 150, 5), (7, 100, 4), (8, 150, 4), (9, 150, 3), (10, 100, 3), (12, 60, 3)) if q else ((6, 600, 5), (7, 600, 4), (8, 800, 4), (9, 800, 3), (10, 800, 3), (11, 400, 3), (12, 600, 3), (12, 300, 2)):
+        for k, pat in enumerate(C.matchable_family(n, cnt, density=den)):
+            cs.append((n, hex(pat), 0, 0, 1, k + 1)); cs.append((n, hex(pat), 0, 0, 1, 1000 + 7 * k))
+    # inputs on which the Q/Q2 overlap defect of mc64wd_ (fixed, see known_findings.json) showed: dense root column with ties
+    cs += [(4, "0x1afd", 0, 0, 1, 87796), (4, "0xe3bf", 0, 0, 1, 74567), (5, "0x09fcfe5", 0, 0, 1, 925), (5, "0x16ed977", 0, 0, 1, 55724), (6, "0xbd5ff7bff", 0, 0, 1, 29702), (6, "0xd1f58deff", 0, 0, 1, 50506), (7, "0x10e73aebeddf7", 0, 0, 1, 8701)]
+    for n, cnt in ((4, 60), (5, 60)) if q else ((4, 400), (5, 400)):
+        for k, pat in enumerate(C.matchable_family(n, cnt, seed=31337, density=7)): cs.append((n, hex(pat), 0, 0, 1, 2000 + k))
+    run_phase(chk, "ldperm(job 5) tie-heavy reach/d", H + "h_ldperm.c", list(dict.fromkeys(cs)), ["C17."], prec="d", budget_s=120 if q else 1500, validate_samples=0, qtimeout_ms=5000, path_timeout=60, env={"SLUSYM_LOG2": "1"},
+              bounds="n = 6..12, pseudo-random patterns containing a perfect matching, concrete entries +-2^k (k in -2..2: many exact ties), exact base-2 logarithms; optimality through the dual certificate (and by enumeration for n = 6)")
+    cs = []
+    for n, cnt, den in ((4, 30, 7), (5, 10, 5), (6, 8, 5)) if q else ((4, 200, 7), (5, 60, 5), (6, 60, 5), (7, 30, 4)):
+        for k, pat in enumerate(C.matchable_family(n, cnt, seed=977, density=den)): cs.append((n, hex(pat), 1 << (k % n), 0, 1, k + 1))
+    run_phase(chk, "ldperm(job 5) one symbolic column among +-2^k entries/d", H + "h_ldperm.c", list(dict.fromkeys(cs)), ["C17."], prec="d", budget_s=100 if q else 1500, validate_samples=0, qtimeout_ms=5000, path_timeout=60, env={"SLUSYM_LOG2": "1"},
+              bounds="n = 4..6 (7 thorough): one column with symbolic magnitudes (log atoms ordered by the solver against the integer logarithms of the other entries), other entries +-2^k")
 
 
 REGISTRY = {"C17": check_C17, "C15": check_C15, "C16": check_C16, "C13": check_C13, "C12": check_C12, "C11": check_C11, "C09": check_C09, "C19": check_C19, "C20": check_C20, "C07": check_C07, "C14": check_C14, "C10": check_C10, "C08": check_C08, "C18": check_C18, "C05": check_C05, "C06": check_C06, "C01": check_C01, "C02": check_C02, "C03": check_C03, "C04": check_C04}
